@@ -13,7 +13,7 @@ from .absval import (
 BUILTIN_NAMES = {
     "len", "abs", "chr", "ord", "str", "int", "bool", "all", "any", "sorted", "set", "list", "tuple", "dict", "range",
     "enumerate", "zip", "isinstance", "min", "max", "print", "getattr", "setattr", "hasattr", "cast", "partial",
-    "assert_never", "repr", "reversed", "sum", "frozenset", "iter", "next", "type", "field", "replace", "filter", "map", "slice",
+    "assert_never", "repr", "reversed", "sum", "frozenset", "iter", "next", "type", "field", "replace", "filter", "map", "slice", "vars",
 }
 
 DIGITS = frozenset("0123456789")
@@ -1312,6 +1312,14 @@ def b_len(I, args, kwargs, st, node):
                 return r
     st.note(f"len of {type(v).__name__}")
     return [(Unknown("len"), st)]
+
+
+def b_vars(I, args, kwargs, st, node):
+    """vars(obj) for a heap object: its fields in definition order (a snapshot: stores through the result are not modelled)."""
+    if len(args) == 1 and isinstance(args[0], Ref) and st.obj(args[0]).kind == "obj":
+        return [(st.alloc(HObj("dict", cls="vars-snapshot", fields=dict(st.obj(args[0]).fields))), st)]
+    st.note("vars() of a non-object")
+    return [(Unknown("vars"), st)]
 
 
 def b_slice(I, args, kwargs, st, node):
